@@ -65,6 +65,7 @@ structure Scan where
   regOpts : List (FutId × Option Key) := []    -- `register()` calls: the future ↦ the endpoint's details_arg
   regIds : List (RegId × FutId × HId) := []    -- REGISTERED: registration id ↦ (its future, endpoint)
   regReq : List (FutId × HId) := []            -- `register()` calls: the future ↦ endpoint
+  unregging : List FutId := []                 -- registrations `unregister()` was called on: no promise either way
   owed : List (ReqId × Owed) := []             -- accepted invocations without terminal reply
 deriving DecidableEq, Repr
 
@@ -189,12 +190,18 @@ def stepCheck (mode : Sched) (σ : Scan) (e : SEv) (outs : List SOut) : Scan × 
           | some (obj, h) =>
             let a := beh.headD {}
             let hasProg := ((alookup obj σ.regOpts).join).isSome && rp
+            let called := match outs.head? with
+              | some (.endpoint req' _ _ _ _) => req' == req
+              | _ => false
             let okCall := match outs.head? with
               | some (.endpoint req' obj' h' args kw) =>
                 req' == req && obj' == obj && h' == h && args == p.args.getD [] && sameKw kw (expectedKw σ obj p hasProg)
               | _ => false
-            ({ σ with owed := aset req { asked := rp, known := a.raises || a.ret != .pending, cancelled := false } σ.owed },
-             if okCall then [] else [.endpointArgs req])
+            let σ' := { σ with owed := aset req { asked := rp, known := a.raises || a.ret != .pending, cancelled := false } σ.owed }
+            if σ.unregging.contains obj then
+              -- UNREGISTER is under way: the registration may or may not be active any more
+              (if called then σ' else σ, if called || outs = [.raise_ .protocolError] then [] else [.invocationNotRejected req])
+            else (σ', if okCall then [] else [.endpointArgs req])
       | .interrupt req =>
         match alookup req σ.owed with
         | some o => if o.known then (σ, []) else ({ σ with owed := aupd req { o with known := true, cancelled := true } σ.owed }, [])
@@ -205,6 +212,7 @@ def stepCheck (mode : Sched) (σ : Scan) (e : SEv) (outs : List SOut) : Scan × 
       (match a, outs with
        | .register h _ o _, [.send _, .ret f] =>
          ({ σ with regOpts := (f, o.bind (·.detailsArg)) :: σ.regOpts, regReq := (f, h) :: σ.regReq }, [])
+       | .unregister obj _, _ => ({ σ with unregging := obj :: σ.unregging }, [])
        | _, _ => (σ, []))
     | .resolve req _ | .fail req _ =>
       (match alookup req σ.owed with
